@@ -138,6 +138,18 @@ def run(res, b, tier, seed):
     for r in rows[:60 if quick else 600]:
         progs.append(r["src"])                       # rejected and accepted near-miss programs
     progs.append('import (\n\t"strings"\n)\nx := 2\nswitch x {\ncase 2:\n\tprint(strings.Repeat("a", 2))\n}\nprint(x-1, x -1, x- 1, x - 1)\n')
+    # every statement kind as the LAST statement of the file: the final line break must not matter for any of them
+    END_FORMS = ["var e1 int", "var e1, e2 string", "var e1 int = 3", "var e1 = 3", "e1 := 4", "a0 = 5", "a0++", "a0 += 2", "print(a0)", "f0()",
+                 "a0, b0 = b0, a0", "var e1 []int", "sl0[1] = 2", "if a0 > 0 {\n\tprint(1)\n}", "if a0 > 0 {\n\tprint(1)\n} else {\n\tprint(2)\n}",
+                 "for a0 < 3 {\n\ta0++\n}", "for i := 0; i < 2; i++ {\n\tprint(i)\n}", "func g0() {\n\tprint(1)\n}", "func g0() int {\n\treturn 1\n}",
+                 "switch a0 {\ncase 1:\n\tprint(1)\ndefault:\n\tprint(2)\n}", "panic(\"x\")", "write(\"f\", \"x\")", "e1 := read(\"f\")",
+                 "e1, e2, e3 := @echo(\"x\")", "@echo(\"x\")", "e1 := len(sl0)", "e1 := \"text\"", "e1 := `raw`", "e1 := true", "// only a comment",
+                 "e1 := a0 - 1", "e1 := -1"]
+    END_PRELUDE = "var a0, b0 int = 1, 2\nsl0 := []int{1}\nfunc f0() {\n\tprint(0)\n}\n"
+    end_forced = set()
+    for form in END_FORMS:
+        end_forced.add(len(progs))
+        progs.append(END_PRELUDE + form + "\n")
     srcs = [p.encode() for p in progs]
     traces = trace(b, srcs)
     k = 6 if quick else 10
@@ -147,6 +159,12 @@ def run(res, b, tier, seed):
         base = pipeline.Case("p%d" % pi, {"main.tsh": src}, meta=dict(orig=True, pi=pi))
         cases.append(base)
         members = [base]
+        if pi in end_forced:
+            for vname, v in (("nofinal", src.rstrip(b"\n")), ("crlf-nofinal", src.rstrip(b"\n").replace(b"\n", b"\r\n")),
+                             ("blank-at-end", src + b"\n\n"), ("space-at-end", src.rstrip(b"\n") + b" "), ("tab-newline", src.rstrip(b"\n") + b"\t\n")):
+                c = pipeline.Case("p%d_%s" % (pi, vname), {"main.tsh": v}, meta=dict(orig=False, pi=pi))
+                cases.append(c)
+                members.append(c)
         if lx is not None:
             for j in range(k):
                 v = relayout(rng, lx)
